@@ -601,7 +601,13 @@ def identity_rule(ctx):
     identity_compare(ctx, 'C10.identity', ['bumble.att', 'bumble.gatt_client', 'bumble.gatt_server', 'bumble.gatt'])
 
 
+def sdu_boundary_rule(ctx):
+    from .c12 import sdu_boundary
+    sdu_boundary(ctx, 'C10.sdu-boundary')
+
+
 RULES = [
+    ('C10.sdu-boundary', sdu_boundary_rule),
     ('C10.identity', identity_rule),
     ('C10.uuid-wire', uuid_wire_shared),
     ('C10.parse-guard', parse_guard),
